@@ -99,9 +99,15 @@ V_ENTRY(h_lib_header, unsigned char bytes[FLEN]; unsigned long len; unsigned cha
 		V_ASSERT(v_errors > 0, "a file shorter than the library header is refused (error recorded)");
 	if (v_errors == 0) {
 		V_ASSERT(lib->hdr.numSect <= LIB_INDEX_LIMIT, "accepted header: section count within the table");
-		for (i = 0; i < LIB_INDEX_LIMIT; i++) if (i < lib->hdr.numSect)
+		for (i = 0; i < LIB_INDEX_LIMIT; i++) if (i < lib->hdr.numSect) {
 			V_ASSERT(libIndexSect(lib, i).offset + libIndexSect(lib, i).length <= in->len,
 			         "accepted header: every section lies inside the file");
+			V_ASSERT(libIndexSect(lib, i).offset == (i == 0 ? (Offset) libHdrSize
+			         : libIndexSect(lib, i - 1).offset + libIndexSect(lib, i - 1).length),
+			         "accepted header: sections are contiguous, the first one starts right after the header");
+			V_ASSERT(libIndexName(lib, i) < LIB_NAME_LIMIT && libNameIndex(lib, libIndexName(lib, i)) == i,
+			         "accepted header: section names are valid and the name->index map is consistent");
+		}
 	}
 }
 
